@@ -28,6 +28,7 @@ type Case struct {
 	// ExtraCC adds Cache-Control / Expires style fields that may make the exchange
 	// non-cacheable: then only "same verdict before and after" is required.
 	Conforming bool `json:"conforming"`
+	ReadMode   int  `json:"read_mode,omitempty"` // how the written file is handed to ReadExchange (gen.Source)
 }
 
 const (
@@ -202,7 +203,10 @@ var prop = vh.Define("C02", "roundtrip", func(c Case, r *vh.R) {
 	}
 
 	// ---- read back
-	e2, err := signedexchange.ReadExchange(bytes.NewReader(file))
+	if c.ReadMode > 0 {
+		r.Class("plain-reader")
+	}
+	e2, err := signedexchange.ReadExchange(gen.Source(file, c.ReadMode))
 	if err != nil {
 		r.Failf("read-error", "ReadExchange rejects the written file (url=%d sig=%d headers=%d): %v", ul, sl, hl, err)
 		return
@@ -301,7 +305,7 @@ func variantHeaders(t *rapid.T) []gen.HeaderKV {
 func TestPropRoundTrip(t *testing.T) {
 	prop.Rapid(t, func(t *rapid.T) Case {
 		s := sxgkit.GenSpec(t)
-		c := Case{Spec: *s, Conforming: true}
+		c := Case{Spec: *s, Conforming: true, ReadMode: gen.DrawSourceMode(t, "readmode")}
 		switch rapid.IntRange(0, 9).Draw(t, "variant") {
 		case 0, 1:
 			c.Spec.ResHeaders = append(c.Spec.ResHeaders, variantHeaders(t)...)
